@@ -1,5 +1,6 @@
+import uuid
 from logging import getLogger
-from typing import List
+from typing import Any, Dict, List, Tuple
 
 from taskiq.abc.broker import AsyncBroker
 from taskiq.abc.schedule_source import ScheduleSource
@@ -13,6 +14,9 @@ class LabelScheduleSource(ScheduleSource):
 
     def __init__(self, broker: AsyncBroker) -> None:
         self.broker = broker
+        # Schedule ids have to be the same on every listing,
+        # otherwise the scheduler cannot recognize a schedule it already met.
+        self._known_schedules: List[Tuple[Dict[str, Any], str]] = []
 
     async def get_schedules(self) -> List["ScheduledTask"]:
         """
@@ -27,6 +31,7 @@ class LabelScheduleSource(ScheduleSource):
         :return: list of schedules.
         """
         schedules = []
+        known_schedules = []
         for task_name, task in self.broker.get_all_tasks().items():
             if task.broker != self.broker:
                 # if task broker doesn't match self, something is probably wrong
@@ -40,8 +45,14 @@ class LabelScheduleSource(ScheduleSource):
                     continue
                 labels = schedule.get("labels", {})
                 labels.update(task.labels)
+                schedule_id = uuid.uuid4().hex
+                for known_schedule, known_id in self._known_schedules:
+                    if known_schedule is schedule:
+                        schedule_id = known_id
+                known_schedules.append((schedule, schedule_id))
                 schedules.append(
                     ScheduledTask(
+                        schedule_id=schedule_id,
                         task_name=task_name,
                         labels=labels,
                         args=schedule.get("args", []),
@@ -51,6 +62,7 @@ class LabelScheduleSource(ScheduleSource):
                         cron_offset=schedule.get("cron_offset"),
                     ),
                 )
+        self._known_schedules = known_schedules
         return schedules
 
     def post_send(self, scheduled_task: ScheduledTask) -> None:
